@@ -326,12 +326,37 @@ def py_citem(c, pid, xid):
     return [[] if c.get_name() is None else [c.get_name()], T.dump_constraint(c, pid, xid)]
 
 
+class RecDict(dict):
+    """tables_of_constraints with a record of the keys assigned during one generation (a Python dict keeps the
+    position of a key that is assigned again, so after a regeneration its order depends on the history; the model
+    has no memory: tables are dumped in the order they were written by THIS generation, tables that were not
+    rewritten after them)"""
+    def __init__(self, *a):
+        super().__init__(*a)
+        self.written = []
+
+    def __setitem__(self, k, v):
+        if k in self.written:
+            self.written.remove(k)
+        self.written.append(k)
+        super().__setitem__(k, v)
+
+    def order(self):
+        return list(self.written) + [k for k in self.keys() if k not in self.written]
+
+
+def table_order(func):
+    t = func.tables_of_constraints
+    return t.order() if isinstance(t, RecDict) else list(t.keys())
+
+
 def py_tables(func, pid, xid):
     """tables_of_constraints, cell by cell: [] for a scalar, [position in list_of_class_constraints, object]"""
     from PEPit.constraint import Constraint
     pos = {id(c): k for k, c in enumerate(func.list_of_class_constraints)}
     tables = []
-    for cname, df in func.tables_of_constraints.items():
+    for cname in table_order(func):
+        df = func.tables_of_constraints[cname]
         rows = []
         for row in df.values:
             rows.append([[pos.get(id(el), -1), py_citem(el, pid, xid)] if isinstance(el, Constraint) else []
@@ -341,12 +366,20 @@ def py_tables(func, pid, xid):
 
 
 def py_duals(func):
-    """tag the p-th class constraint with dual value p, then read the real accessor"""
+    """tag the p-th class constraint with dual value p, then read the real accessor (objects sitting in the tables
+    are first poisoned with -1: a table that still holds objects of a previous generation reports -1)"""
+    from PEPit.constraint import Constraint
+    for df in func.tables_of_constraints.values():
+        for row in df.values:
+            for el in row:
+                if isinstance(el, Constraint):
+                    el._dual_variable_value = -1.0
     for k, c in enumerate(func.list_of_class_constraints):
         c._dual_variable_value = float(k)
     out = []
-    for cname, df in func.get_class_constraints_duals().items():
-        out.append([cname, [[Q(T.to_fraction(v)) for v in row] for row in df.values]])
+    duals = func.get_class_constraints_duals()
+    for cname in [k for k in table_order(func) if k in duals] + [k for k in duals if k not in func.tables_of_constraints]:
+        out.append([cname, [[Q(T.to_fraction(v)) for v in row] for row in duals[cname].values]])
     return out
 
 
